@@ -54,6 +54,11 @@ fn main() {
         let dump: Option<usize> = opt("--dump").and_then(|s| s.parse().ok());
         std::process::exit(checks::c03::worker(tier, from, to, dump));
     }
+    if cmd == "c06-worker" {
+        let from: usize = opt("--from").and_then(|s| s.parse().ok()).unwrap_or(0);
+        let to: usize = opt("--to").and_then(|s| s.parse().ok()).unwrap_or(usize::MAX);
+        std::process::exit(checks::c06::worker(tier, from, to));
+    }
     if cmd == "c04-emit" {
         let out = opt("--out").unwrap_or_else(|| usage());
         let upto: usize = opt("--upto").and_then(|s| s.parse().ok()).unwrap_or(usize::MAX);
